@@ -1,6 +1,6 @@
 (* C10 — property theorems only (each closed by [exact] of a lemma of
    Proofs.v / the C02 development; statements pinned by the driver). *)
-From Yv Require Import Common.Base C02.Model C02.Spec C02.ProofsMono C02.ProofsSim C02.Proofs
+From Yv Require Import Common.Base C02.Model C02.Spec C02.ProofsMono C02.ProofsSim C02.ProofsRev C02.Proofs
   C10.Model C10.Spec C10.Proofs.
 
 (* Whether errexit applies is decided in the implementation by a dynamic test
@@ -16,17 +16,17 @@ Proof. exact errexit_test_lemma. Qed.
 (* ... and every run: a command run by the model under any stack that the
    lexical context describes is a run of the specification under that lexical
    context, whatever the nesting of calls, groups, loops and subshells. *)
-Theorem errexit_dynamic_eq_lexical : forall strict n stk c s r s' d infun ex,
+Theorem errexit_dynamic_eq_lexical : forall n stk c s r s' d infun ex,
   exec_cmd n stk c s = Some (r, s') -> ctx_ok stk d infun ex ->
-  wf_cmd strict d infun c = true -> state_ok strict s ->
+  wf_cmd d infun c = true -> state_ok s ->
   forall sv, exists m, sem_cmd m d ex sv c s = Some (abs sv r s').
 Proof. exact errexit_sim_lemma. Qed.
 
 (* Whole scripts: the model's probe trace, final status and number of EXIT
    trap runs are those of the specification (C02's exec_sound covers the
-   errexit, shell-error and trap constructs). *)
-Theorem abort_iff_documented : forall p o, wf_prog p = true -> model_result p o -> spec_result p o.
-Proof. exact exec_sound_lemma. Qed.
+   errexit, shell-error and trap constructs), and conversely. *)
+Theorem abort_iff_documented : forall p o, wf_prog p = true -> (model_result p o <-> spec_result p o).
+Proof. exact model_eq_spec_lemma. Qed.
 
 (* errexit makes the shell exit only after a failing command, with -e on and
    outside every exempt context, and the exit carries no status of its own:
